@@ -2,24 +2,8 @@ import Slock.Proofs.AckConsOps
 /-! M-ACK: the balance for UNLOCK, the sweeps, journal delivery, reports and demotion; guarded events; runs. -/
 namespace Slock.Ack
 
-/-- the UNLOCK does not use the unlock-first escape on an ack-pending hold -/
-def unlockOk (db : DB) (c : Cmd) : Bool :=
-  !(has c.flag UF_FIRST) || (findHolder db c.key c.lockId).isSome ||
-    (match (db.holders c.key).head? with | some h => !h.pending | none => true)
-
-/-- the LOCK record being delivered (if it is one, to a leader, with a lock pointer) belongs to a lock that is still waiting for it -/
-def pushOk (db : DB) (k : Nat) : Bool :=
-  match db.journal.find? (·.key == k) with
-  | some j => !(j.isLock && db.leader) || (match j.hid with | some h => (db.getR h).pending | none => true)
-  | none => true
-
-def evOk (db : DB) : Ev → Bool
-  | .unlock c => unlockOk db c
-  | .push k => pushOk db k
-  | .pushW k => pushOk db k
-  | _ => true
-
-theorem classifyUnlock_spec (db : DB) (c : Cmd) (hg : unlockOk db c = true) :
+/-- a hold that UNLOCK releases (one level or all) is not ack-pending — on the LockId path and on the unlock-first path -/
+theorem classifyUnlock_spec (db : DB) (c : Cmd) :
     (∀ h, classifyUnlock db c = .dec h ∨ classifyUnlock db c = .release h → ∃ r ∈ db.recs, r.hid = h ∧ r.depth > 0 ∧ r.pending = false) := by
   intro h hh
   unfold classifyUnlock at hh
@@ -36,23 +20,21 @@ theorem classifyUnlock_spec (db : DB) (c : Cmd) (hg : unlockOk db c = true) :
         · rename_i hnp
           refine ⟨r, hm.1, ?_, hm.2, by simpa using hnp⟩
           split at hh <;> simp at hh <;> exact hh
-      · rename_i hnone
-        split at hh
-        · rename_i hf
-          split at hh
+      · split at hh
+        · split at hh
           · rename_i r hr
             have hm := holders_head_mem hr
-            unfold unlockOk at hg
-            rw [hnone, hr] at hg
-            simp [hf] at hg
-            refine ⟨r, hm.1, ?_, hm.2, hg⟩
-            split at hh <;> simp at hh <;> exact hh
+            split at hh
+            · simp at hh
+            · rename_i hnp
+              refine ⟨r, hm.1, ?_, hm.2, by simpa using hnp⟩
+              split at hh <;> simp at hh <;> exact hh
           · simp at hh
         · simp at hh
 
-theorem opUnlock_cons (x : Rid) {db : DB} (ha : InvA db) (hq : InvQ db) (c : Cmd) (hg : unlockOk db c = true) :
+theorem opUnlock_cons (x : Rid) {db : DB} (ha : InvA db) (hq : InvQ db) (c : Cmd) :
     InvQ (opUnlock db c).1 ∧ answered x (opUnlock db c).2 + openN x (opUnlock db c).1 = openN x db + hit x c.rid := by
-  have hs := classifyUnlock_spec db c hg
+  have hs := classifyUnlock_spec db c
   unfold opUnlock
   cases e : classifyUnlock db c with
   | stateError => unfold applyUnlock DB.bumpErr; dsimp only; exact ⟨hq.ctrMod _, by rw [answered_mk x _ _ _ _ _ (by decide), openN_ctrMod]; omega⟩
@@ -300,5 +282,65 @@ theorem opTick_cons (x : Rid) {db : DB} (ha : InvA db) (hq : InvQ db) :
   have e2 : openN x (tickT db) = openN x db := openN_frame x rfl
   have := h1.2; have := h2.2
   omega
+
+/-! ### journal delivery (building blocks; used by the counting invariant too) -/
+
+theorem InvQ.dropEnt {db : DB} (h : InvQ db) (id : Nat) : InvQ (db.dropEnt id) := h.frame rfl rfl
+
+/-- an update that keeps a pending record pending (only the counter moves, within 0 … 254) -/
+theorem pendingKeep_cons (x : Rid) {db : DB} (hq : InvQ db) (hid : Nat) (a : Nat → Nat)
+    (hp : (db.getR hid).pending = true) (ha : a (db.getR hid).ack < NOACK) :
+    InvQ (db.modR hid (fun r => { r with ack := a r.ack })) ∧ openN x (db.modR hid (fun r => { r with ack := a r.ack })) = openN x db := by
+  have hpr := present_of (Or.inl hp)
+  have hm := (findR_some_mem hpr).1
+  have hqr := hq.getR hid
+  have hnq := not_queued_of_pending hqr hp
+  have hex := expried_of_pending hqr hp
+  have hpa : ({ (db.getR hid) with ack := a (db.getR hid).ack } : Rec).pending = true := by
+    unfold Rec.pending NOACK at *; simp; omega
+  constructor
+  · refine ⟨?_, hq.cfg⟩
+    intro r hr
+    rcases mem_modRecs hr with h | ⟨r0, hr0, e⟩
+    · exact hq.recs r h
+    · have : r0 = db.getR hid := by rw [hpr] at hr0; exact (Option.some.inj hr0).symm
+      subst this
+      rw [e]
+      exact QR_of (by intro _; simp only []; exact ⟨fun _ => hpa, fun hd => (hqr.1 ‹_›).2 hd⟩) (by simp [hex]) (by simp [hnq]) (by simp only []; unfold NOACK at *; omega)
+  · have h : openN x (db.modR hid (fun r => { r with ack := a r.ack })) =
+        openN x db + openR x ({ (db.getR hid) with ack := a (db.getR hid).ack } : Rec) - openR x (db.getR hid) :=
+      openN_modR_at x db hid _ hpr
+    have : openR x ({ (db.getR hid) with ack := a (db.getR hid).ack } : Rec) = openR x (db.getR hid) := by
+      rw [openR_eq, openR_eq, hpa, hp]
+    rw [this] at h
+    omega
+
+theorem leaderPushLock_cons (x : Rid) {db : DB} (ha : InvA db) (hq : InvQ db) (id hid : Nat)
+    (hg : db.leader = true → (db.getR hid).depth > 0 → (db.getR hid).pending = true) :
+    InvQ (leaderPushLock db id hid).1 ∧ answered x (leaderPushLock db id hid).2 + openN x (leaderPushLock db id hid).1 = openN x db := by
+  unfold leaderPushLock
+  split
+  · exact ackDone_cons x ha hq hid false
+  · rename_i hl
+    split
+    · exact ackDone_cons x ha hq hid false
+    · rename_i hc
+      have hl' : db.leader = true := by simpa using hl
+      have hd : (db.getR hid).depth > 0 := by
+        simp only [Bool.or_eq_true, beq_iff_eq, not_or] at hc; omega
+      have := pendingKeep_cons x hq hid (fun _ => reqAcks db.cfg) (hg hl' hd) hq.cfg
+      simp only []
+      exact ⟨this.1.frame rfl rfl, by simp only [answered_nil, Int.zero_add]; exact (openN_frame x rfl).trans this.2⟩
+
+theorem leaderPushUnLock_cons (x : Rid) {db : DB} (ha : InvA db) (hq : InvQ db) (hid : Nat) :
+    InvQ (leaderPushUnLock db hid).1 ∧ answered x (leaderPushUnLock db hid).2 + openN x (leaderPushUnLock db hid).1 = openN x db := by
+  unfold leaderPushUnLock
+  split
+  · rename_i e _
+    have := ackDone_cons x (ha.dropEnt e.id) (hq.dropEnt e.id) hid false
+    exact ⟨this.1, by rw [this.2]; exact openN_frame x rfl⟩
+  · exact ⟨hq, by simp⟩
+
+theorem InvQ.popJ {db : DB} (h : InvQ db) (k : Nat) : InvQ (popJ db k) := h.frame rfl rfl
 
 end Slock.Ack
